@@ -21,4 +21,8 @@ LEVELS = {
   'text': 'Proof of the re-parse step (a written well-formed message parses back consuming exactly its bytes, from the C01 lemma) plus evaluation of the full executable round-trip statement Spec.C02one (fields preserved, bytes consumed = bytes written, second write byte-identical) on the bytes DltMessage::to_write really produced, for every message of every generated stream; model toWrite == implementation bytes is part of the correspondence.',
   'note': 'Trusted: Lean kernel; model tied by the differential run; the theorem relating toWrite to a well-formed raw message (normal form) is being added; messages outside the property range (storage micros >= 10^6) are generated but skipped by the oracle.',
  },
+ 'C10': {
+  'text': 'Proof, full statement: for every stream, lifecycle table, window size and minimum delay the model of buffer_sort_messages outputs a permutation of its input (C10_perm); and whenever reception times are non-decreasing, indices increase and every message is delayed by at most the minimum buffering delay, the output is ordered by (calculated time, index) (C10_sorted, invariant over heap + emitted prefix, using only threshold >= minimum). Model tied to the real function by a differential run over thousands of generated streams incl. the sliding-window bookkeeping (compared up to the unspecified order of BinaryHeap ties).',
+  'note': 'Trusted: Lean kernel; model tied by correspondence; BinaryHeap as a priority multiset; evmap read of a static table; mpsc channel as FIFO. windows_size_secs >= 1 (0 underflows in the code; outside the property range).',
+ },
 }
